@@ -521,6 +521,14 @@ func (i *interpreter) prepareCall(fr *frame, call *ssa.CallCommon) (fn value, ar
 		if recv.t == nil {
 			panic(i.nilDeref())
 		}
+		if recv.t == rtypeType {
+			fn = i.rtypeMethod(call.Method.Name())
+			args = append(args, recv.v)
+			for _, arg := range call.Args {
+				args = append(args, fr.get(arg))
+			}
+			return
+		}
 		f := i.lookupMethod(recv.t, call.Method)
 		if f == nil {
 			panic(fmt.Sprintf("method set for dynamic type %v does not contain %s", recv.t, call.Method))
@@ -559,6 +567,10 @@ func (i *interpreter) callSSA(caller *frame, callpos token.Pos, fn *ssa.Function
 		fr.task = i.curTask
 	}
 	if fn.Parent() == nil {
+		if fn.Pkg != nil && fn.Name() == "init" && fn.Synthetic != "" && i.inLazyInit > 0 && len(args) == 0 {
+			// dependency initialisers are run lazily (see globalAddr)
+			return nil
+		}
 		if intr := i.intrinsicFor(fn); intr != nil {
 			saved := i.curFrame
 			i.curFrame = fr
@@ -572,10 +584,6 @@ func (i *interpreter) callSSA(caller *frame, callpos token.Pos, fn *ssa.Function
 		}
 		if fn.Blocks == nil {
 			panic(i.unsupported("no code for function: " + fn.String()))
-		}
-		if fn.Pkg != nil && fn.Name() == "init" && fn.Synthetic != "" && i.inLazyInit > 0 && len(args) == 0 {
-			// dependency initialisers are run lazily (see globalAddr)
-			return nil
 		}
 	}
 	if fn.TypeParams().Len() > 0 && len(fn.TypeArgs()) == 0 {
